@@ -120,7 +120,7 @@ func ruleKeyNil(r *Report) {
 		var seeds []ssa.Value
 		seeds = append(seeds, keys...)
 		for _, pa := range fn.Params {
-			if pa.Name() == "key" || pa.Name() == "k" {
+			if refName(pa) == "key" || refName(pa) == "k" {
 				if sl, ok := pa.Type().Underlying().(*types.Slice); ok && types.Identical(sl.Elem(), types.Typ[types.Byte]) {
 					seeds = append(seeds, pa)
 				}
